@@ -9,18 +9,33 @@ CLAIMED = {
  "C01": ("property-based differential testing: rapid-generated typed sessions, compiled VM vs. an independent reference interpreter",
          "Generated well-typed, terminating sessions (closures, generators, recursion, every statement form in every position) run through parser+compiler+VM and through a definitional interpreter written from the Readme; final value, output and error class are compared per statement in both result modes. Exploration: holds on the cases counted in the evidence.",
          "trusted: harness/ref (reference semantics), the shared parser, rapid; domain flags skip (and count) programs whose meaning the description leaves open"),
+ "C05": ("property-based crash fuzzing: type-blind tree-generated and mutated programs through parser, compiler and VM under recover(); binary script leg; rapid.MakeFuzz leg in thorough",
+         "Arbitrary parseable programs (every operator over every literal kind incl. extreme values, undefined names, wrong arities, control statements in every position, token-mutated typed sessions) must compile and end in a value or a documented runtime error in both result modes; any Go panic or undocumented error is a violation; a script of operator/operand products runs through the built binary to catch unrecoverable faults.",
+         "trusted: the reference interpreter only as a resource screen (programs it cannot finish are skipped and counted); exit() never generated in process"),
  "C06": ("property-based fuzzing of the front end: token/byte soup, program prefixes, nesting bombs; totality oracle with watchdog; native go fuzz leg in thorough",
          "Every generated text must make lexer and parser return (token bound + 10 s watchdog), without panic, with an error span inside the input and a well-formed caret display; broken statements with a visible side effect are run through the built binary in all three modes and must execute nothing; nesting up to 10^6 goes through the binary.",
          "trusted: the watchdog margin (10 s vs. microseconds); REPL mode is fed printable text only (its third-party line editor interprets control bytes)"),
  "C07": ("property-based round-trip testing: random syntax trees printed by a grammar-derived printer in two layouts and parsed back",
          "Random trees of every parser-producible shape are printed with minimal parentheses/braces by the documented precedence table and again with redundant parentheses, braces, blanks, blank lines and comments; both texts must parse to exactly the tree.",
          "trusted: harness/gen/print.go as the documented grammar; trees limited to non-negative number literals and backslash-free strings"),
+ "C09": ("property-based testing with state hooks: machine residue after every generated statement in both result modes; metamorphic growth pairs (n vs n+600 iterations)",
+         "After every statement of generated typed sessions (finished normally, through return, or with a runtime error) operand stack, frame stack, closure stack and child contexts must be empty and the main context at the end of the code; loop programs with bodies ending in every statement form are run with n and n+600 iterations and must reach the same stack high-water mark over all memories.",
+         "trusted: the verif hooks (read-only accessors, growStack observer)"),
+ "C11": ("property-based testing of the value API: generated operand tuples vs. the reference value model, exhaustive kind pairings, algebraic laws",
+         "Every exported operator of types/value is compared with an independent value model on boundary and random operands of every kind; all 7x7 kind pairings per operator are enumerated in every run; symmetry/negation/consistency laws and the slicing laws are checked directly on the implementation.",
+         "trusted: harness/ref/values.go as the documented algebra; shifts pinned only for counts 0..63 on non-negative left operands"),
+ "C12": ("metamorphic property-based testing on the real VM: one generated expression/statement in ~30 syntactic placements, plus pair rewrites",
+         "A generated expression or statement is embedded in every code-generation context (discarded, used, function tail, loop bodies, call argument, operand depths, index position, ...) and all placements must agree on value, output and error class; the rewrites named in the property (x = x + 1 forms, e op e, negated conditions) must agree too.",
+         "trusted: nothing but the implementation itself (no reference); placements that change the program by definition (assigning nil, moving a global assignment into a function) are excluded"),
  "C13": ("model-based testing: rapid state machine on the transactional lexer; random combinator expressions vs. an independent ordered-choice (PEG) recogniser",
          "Operation sequences Next/Snapshot/Rollback/Commit are compared after every step with a cursor model over a fresh scan; random parser expressions over all thirteen combinators are compared with an ordered-choice recogniser on accept/reject, result list and position after success.",
          "trusted: the recogniser in props/c13_test.go; combinator preconditions documented in combinator.go are respected by construction"),
  "C14": ("property-based testing of the lexer: constructive lexeme lists in two layouts, differential against a regular-expression tokenizer, structural invariants; native go fuzz leg in thorough",
          "Lexeme lists rendered with random gaps/comments must come back as exactly those lexemes; arbitrary strings over the alphabet must be accepted exactly when an independent regex tokenizer accepts, with equal kinds, spans, and the ordering/gap/maximal-run/EOL/EOF invariants.",
          "trusted: the regex tokenizer in props/c14_test.go; string token text compared after the documented \\n substitution"),
+ "C15": ("exhaustive boundary enumeration + property-based testing of the instruction codec and function values; generated programs around the 2^15/2^16 limits",
+         "All 128 opcodes x 3 slots x 8 kinds x boundary addresses round-trip, addresses outside the signed 16 bit field are refused, three operands OR-ed together and patched decode independently, function values round-trip; programs with ~16k-70k constants, body statements, locals, parameters or session statements are refused at compile time (segments untouched) or give the closed-form value.",
+         "trusted: the field layout read off bytecode.go; sizes explored to ~70000"),
  "C18": ("model-based testing: operation histories on memory.Type against a slice model, plus generated wide-frame/deep-recursion programs with closed-form results",
          "Histories following the VM's calling protocol (push/pop/call/ret/set/capture/clone with and without recycled target/switch/destroy/reset, frame widths across every 128-slot boundary) are checked after every step against plain Go slices; programs with 100-400 locals and recursion to 24000 are checked against closed forms and the reference.",
          "trusted: the protocol read off vm.go; recursion explored to a stated depth, not to memory exhaustion"),
